@@ -62,6 +62,20 @@ pub fn all_requests(c: &Ctx) -> Vec<Req> {
         r("brc20_reorg", "h", json!([c.height])),
         r("brc20_commitToDatabase", "", json!([])),
         r("brc20_clearCaches", "", json!([])),
+        // ---- the same methods on their refusal / ignore branches (other lock traces, other code) ----
+        r("brc20_call", "wrong-index", json!({"from_pkscript": pk, "contract_address": s, "data": "0x0600", "timestamp": c.ts, "hash": c.hash, "tx_idx": c.idx + 1, "inscription_id": "req-bad1", "inscription_byte_len": DEFAULT_LEN, "op_return_tx_id": z})),
+        r("brc20_call", "existing-hash", json!({"from_pkscript": pk, "contract_address": s, "data": "0x0600", "timestamp": c.ts, "hash": c.known_block_hash, "tx_idx": c.idx, "inscription_id": "req-bad2", "inscription_byte_len": DEFAULT_LEN, "op_return_tx_id": z})),
+        r("brc20_call", "unknown-inscription", json!({"from_pkscript": pk, "contract_inscription_id": "no-such-inscription", "data": "0x0600", "timestamp": c.ts, "hash": c.hash, "tx_idx": c.idx, "inscription_id": "req-call3", "inscription_byte_len": DEFAULT_LEN, "op_return_tx_id": z})),
+        r("brc20_call", "zero-length", json!({"from_pkscript": pk, "contract_address": s, "data": "0x0600", "timestamp": c.ts, "hash": c.hash, "tx_idx": c.idx, "inscription_id": "req-call4", "inscription_byte_len": 0, "op_return_tx_id": z})),
+        r("brc20_deploy", "empty-data", json!({"from_pkscript": pk, "data": "0x", "timestamp": c.ts, "hash": c.hash, "tx_idx": c.idx, "inscription_id": "req-deploy2", "inscription_byte_len": DEFAULT_LEN, "op_return_tx_id": z})),
+        r("brc20_transact", "stale-or-far", json!({"raw_tx_data": hx(&crate::sign::raw_tx(0, crate::inst::chain_id(), 40, Some(s.parse().unwrap()), &[6, 0])), "timestamp": c.ts, "hash": c.hash, "tx_idx": c.idx, "inscription_id": "req-t40", "inscription_byte_len": DEFAULT_LEN, "op_return_tx_id": z})),
+        r("brc20_transact", "other-chain", json!({"raw_tx_data": hx(&crate::sign::raw_tx(0, 1, 0, Some(s.parse().unwrap()), &[6, 0])), "timestamp": c.ts, "hash": c.hash, "tx_idx": c.idx, "inscription_id": "req-tc", "inscription_byte_len": DEFAULT_LEN, "op_return_tx_id": z})),
+        r("brc20_transact", "creation", json!({"raw_tx_data": hx(&crate::sign::raw_tx(1, crate::inst::chain_id(), 0, None, &crate::asm::CHILD_INIT)), "timestamp": c.ts, "hash": c.hash, "tx_idx": c.idx, "inscription_id": "req-tcr", "inscription_byte_len": DEFAULT_LEN, "op_return_tx_id": z})),
+        r("brc20_withdraw", "overdraft", json!({"from_pkscript": pkscript(2), "ticker": "ordi", "amount": "0xffff", "timestamp": c.ts, "hash": c.hash, "tx_idx": c.idx, "inscription_id": "req-wd2"})),
+        r("brc20_finaliseBlock", "wrong-count", json!({"timestamp": c.ts, "hash": c.hash, "block_tx_count": c.idx + 1})),
+        r("brc20_initialise", "other-height", json!({"genesis_hash": h32(0x99), "genesis_timestamp": c.ts, "genesis_height": c.height + 1})),
+        r("brc20_reorg", "too-deep", json!([c.height.saturating_sub(W + 2)])),
+        r("brc20_reorg", "above", json!([c.height + 3])),
         // ---- reads ----
         r("brc20_version", "", json!([])),
         r("brc20_balance", "ordi", json!([pk, "ordi"])),
@@ -80,6 +94,12 @@ pub fn all_requests(c: &Ctx) -> Vec<Req> {
         r("eth_getLogs", "range", json!([{"fromBlock": "0", "toBlock": "3", "address": s, "topics": [null, [h32(1)]]}])),
         r("eth_call", "set", json!([call, null])),
         r("eth_call", "get-latest", json!([get, "latest"])),
+        r("eth_call", "creation@height", json!([{"from": addr_s(pk_addr(1)), "data": hx(&crate::asm::CHILD_INIT)}, "0x1"])),
+        r("eth_call", "reverting", json!([{"from": addr_s(pk_addr(0)), "to": s, "data": "0x04"}, null])),
+        r("eth_getLogs", "too-wide", json!([{"fromBlock": "0", "toBlock": "9"}])),
+        r("eth_getBlockByNumber", "missing", json!(["0x99", true])),
+        r("debug_getRawHeader", "by-hash", json!([c.known_block_hash])),
+        r("debug_getRawBlock", "by-unknown-hash", json!([h32(0xfe)])),
         r("eth_callMany", "set,get", json!([[call, get], null, {"opReturnTxIds": [h32(0x31)], "bitcoinTxHexes": {}}])),
         r("eth_estimateGas", "set", json!([call, null])),
         r("eth_estimateGasMany", "set,get", json!([[call, get], null, null])),
